@@ -749,8 +749,10 @@ class SymX:
     def ev_loop(self, e, st):
         sub = self._sub()
         body_outs = sub.ev(e["body"], St(env=dict(st.env)))
+        off0 = len(st.conds)
         for p in sub.done:
-            sp = St(dict(p.env), st.conds + p.conds, st.trace + p.trace)
+            shifted = [(t[:4] + (t[4] + off0,)) if (len(t) > 4 and isinstance(t[4], int)) else t for t in p.trace]
+            sp = St(dict(p.env), st.conds + p.conds, st.trace + shifted)
             self.done.append(Path(sp, p.kind, p.ret))
         outs = []
         paths = [Path(bs, "fall", bv) for bs, bv in body_outs] + [Path(bs, "continue", ("unit",)) for (_t, bs) in sub.continues]
@@ -761,8 +763,10 @@ class SymX:
             s2.log(("call", "<loop>", [], node))
             # loop without break: diverges (or returns from inside)
             return []
+        off = len(st.conds)
         for bs, bv in brk:
-            s2 = St(dict(bs.env), st.conds + bs.conds, st.trace + [("call", "<loop>", [], node)] + bs.trace)
+            shifted = [(t[:4] + (t[4] + off,)) if (len(t) > 4 and isinstance(t[4], int)) else t for t in bs.trace]
+            s2 = St(dict(bs.env), st.conds + bs.conds, st.trace + [("call", "<loop>", [], node, off)] + shifted)
             outs.append((s2, bv))
         return outs
 
